@@ -306,6 +306,11 @@ def gen_e2e_case(seed):
             # second login then uses: that transfer runs under the second user's limits
             sess["relogin"]["dconn_first"] = rnd.random() < 0.4
         sessions.append(sess)
+    if rnd.random() < 0.35 and all(s_["client_limits"] == [None, None] for s_ in sessions):
+        # a socket_timeout shorter than the pause one block can require under the limits above:
+        # timeouts bound the I/O itself, a throttle wait is not I/O (peers that read and write
+        # promptly, so no genuine stall can make the timeout fire)
+        srv["socket_timeout"] = rnd.choice([0.05, 0.2, 1.0])
     return {"mode": "e2e", "seed": seed, "B": B, "server": srv, "users": users, "sessions": sessions}
 
 
